@@ -10,7 +10,7 @@
     Judge/JF.v against Spec/SqlLexemes.v, and the transcription is tied to the
     code by exact correspondence of every compiled query file. *)
 From Coq Require Import Sorting.Permutation.
-From Verif Require Import Model.Compile Spec.SqlLexemes Judge.JQ Judge.J02 Judge.JF Proofs.SourceFacts Proofs.CompileFacts3.
+From Verif Require Import Model.Compile Spec.SqlLexemes Judge.JQ Judge.J02 Judge.JF Proofs.SourceFacts Proofs.CompileFacts3 Proofs.StripFacts.
 Open Scope string_scope.
 Open Scope list_scope.
 
@@ -68,6 +68,19 @@ Theorem C04_compiled_partial : forall e raw src positional q,
       strip_comments (result_of segs tail) = Ok (q_sql q, q_comments q).
 Proof. exact compiled_sql_is_edited_source. Qed.
 Print Assumptions C04_compiled_partial.
+
+(** source.StripComments removes exactly the annotation line and the full-line
+    comments (lines starting with -- , or /* ... */ on one line); every other line
+    is kept verbatim and in order; the comment texts become the doc comment.
+    (That a line starting with -- may be the continuation of a string literal is
+    the finding multiline_literal_cut_by_strip_comments.) *)
+Theorem C04_strip_comments_partial : forall sql s cs,
+  strip_comments sql = Ok (s, cs) ->
+  exists ls, scan_lines_limited (trim_space sql) = Some ls /\
+    s = join (String nl "") (filter (fun t => negb (is_annotation t) && negb (is_comment_line t)) ls) /\
+    cs = flat_map comment_text ls.
+Proof. exact strip_comments_spec. Qed.
+Print Assumptions C04_strip_comments_partial.
 
 (** Non-vacuity and the known class: two rewrites in one statement, given in the
     "wrong" order; and a named parameter spelled with inner spaces garbles the text. *)
